@@ -186,7 +186,7 @@ func c15TextAlphabet() []wStep {
 			wStep{Text: []string{"SETNX", k, "z"}}, wStep{Text: []string{"GETSET", k, "w"}}, wStep{Text: []string{"APPEND", k, "pq"}},
 			wStep{Text: []string{"EXISTS", k}}, wStep{Text: []string{"STRLEN", k}})
 	}
-	a = append(a, wStep{Text: []string{"INCR", "n"}}, wStep{Text: []string{"DECR", "n"}}, wStep{Text: []string{"INCRBY", "n", "5"}}, wStep{Text: []string{"DECRBY", "n", "7"}},
+	a = append(a, wStep{Text: []string{"INCR", "n"}}, wStep{Text: []string{"DECR", "n"}}, wStep{Text: []string{"INCRBY", "n", "5"}}, wStep{Text: []string{"DECRBY", "n", "7"}}, wStep{Text: []string{"INCRBY", "n", "0"}}, wStep{Text: []string{"EXISTS", "n"}},
 		wStep{Text: []string{"GET", "n"}}, wStep{Text: []string{"DEL", "n"}}, wStep{Text: []string{"INCR", "a"}},
 		wStep{Text: []string{"EXPIRE", "a", "2"}}, wStep{Text: []string{"PERSIST", "a"}}, wStep{Text: []string{"SET", "b", "v", "EX", "2"}},
 		wStep{Tick: 1 * sec}, wStep{Tick: 5 * sec})
